@@ -8,6 +8,7 @@ representation (Decimal vs Fraction) the representation is an explicit input.
 import QuantityModel.Model.Rounding
 import QuantityModel.Model.Registry
 import QuantityModel.Model.Rate
+import QuantityModel.Model.Allocate
 namespace QM
 
 structure Qty where
@@ -444,6 +445,24 @@ def refValue (s : QState) (a : Qty) : Option Rat :=
   if (s.reg.cls (s.reg.unitCls a.unit)).refUnit.isSome then
     (s.reg.unit a.unit).equiv.map (· * a.amount)
   else none
+
+/-- a ratio of `Quantity.allocate`: a plain number, or a quantity — which
+counts with its reference value (the code divides quantity by quantity, which
+converts), or with its amount where there is no scale (then all ratios share
+one unit or the division raises) -/
+inductive Ratio where
+  | num (r : Rat)
+  | qty (x : Qty)
+  deriving Repr, Inhabited
+
+def ratioValue (s : QState) : Ratio → Rat
+  | .num r => r
+  | .qty x => (s.refValue x).getD x.amount
+
+/-- `Quantity.allocate(ratios, disperse_rounding_error)` -/
+def allocateQty (s : QState) (dflt : Rounding) (a : Qty) (ratios : List Ratio) (disperse : Bool) :
+    Except Err (List Rat × Rat) :=
+  allocate dflt a.amount (s.reg.unitQuantum a.unit) (ratios.map s.ratioValue) disperse
 
 end QState
 end QM
